@@ -4,7 +4,7 @@
    the property; dg_E / dg_acyclic (Dep/DgCycleProofs.v) the edge relation incl. implicit service->host edges. *)
 From Coq Require Import Relations Permutation.
 From Icv Require Import Base.Tac Dep.DgModel Dep.DgObs Dep.DgReachProofs Dep.DgCycleProofs
-     Dep.DgOracleProofs Dep.DgFacts Dep.DgRegistryProofs.
+     Dep.DgOracleProofs Dep.DgFacts Dep.DgRegistryProofs Dep.DgLoadProofs.
 Local Open Scope Z_scope.
 
 (* Dependency::IsAvailable is the five-way disjunction of the statement, for every aspect and all inputs *)
@@ -85,6 +85,31 @@ Theorem C07_check_decides : forall g extra,
 Proof. exact dg_check_ok_spec. Qed.
 Print Assumptions C07_check_decides.
 
+(* A configuration load commits its Dependency items in several rounds (apply-rule instances in a later round
+   than plain objects; a runtime addition is a load with one round of one item).  Each round runs the check over
+   ITS items against GetDependencies(includePending = true) = m_PendingDependencies ++ registered groups
+   (dg_lview), then hands the items to their children (pending if the child is not started).  Whatever the
+   rounds and whichever children are started: the load is accepted iff the union of the old graph and ALL new
+   dependencies, with the implicit service->host edges, is acyclic; an accepted load registers exactly the union
+   and leaves an acyclic graph; a rejected load leaves the graph unchanged. *)
+Theorem C07_load_decides : forall started g batches,
+  dg_acyclic g [] ->
+  (snd (dg_load started g batches) = true <-> dg_acyclic g (concat batches)) /\
+  (snd (dg_load started g batches) = true ->
+     dgg_svc (fst (dg_load started g batches)) = dgg_svc g /\
+     (forall d, In d (dgg_deps (fst (dg_load started g batches))) <-> In d (dgg_deps g) \/ In d (concat batches)) /\
+     dg_acyclic (fst (dg_load started g batches)) []) /\
+  (snd (dg_load started g batches) = false -> fst (dg_load started g batches) = g).
+Proof. exact dg_load_decides. Qed.
+Print Assumptions C07_load_decides.
+
+(* in particular the verdict does not depend on how the new dependencies are split into rounds *)
+Theorem C07_batching_irrelevant : forall started1 started2 g bs1 bs2,
+  dg_acyclic g [] -> (forall d, In d (concat bs1) <-> In d (concat bs2)) ->
+  snd (dg_load started1 g bs1) = snd (dg_load started2 g bs2).
+Proof. exact dg_load_batching_irrelevant. Qed.
+Print Assumptions C07_batching_irrelevant.
+
 (* termination: the search never runs out of fuel, and on accepted graphs of depth <= 256 the evaluation never
    hits the recursion limit (more fuel does not change any answer) *)
 Theorem C07_terminates :
@@ -106,10 +131,12 @@ Theorem C07_oracle_accepts_model :
   (forall g st po rk, dg_oracle_reach g st po rk (fun a c => dg_reachable dg_max_recursion g st po a c) = None) /\
   (forall g extra, dg_acyclic g [] -> dg_oracle_commit g extra (snd (dg_commit g extra)) = true) /\
   (forall g extra, dg_acyclic g [] -> dg_acyclic (fst (dg_commit g extra)) []) /\
-  (forall g id, dg_acyclic g [] -> dg_acyclic (dg_remove_dep g id) []).
+  (forall g id, dg_acyclic g [] -> dg_acyclic (dg_remove_dep g id) []) /\
+  (forall started g batches, dg_acyclic g [] ->
+     dg_oracle_commit g (concat batches) (snd (dg_load started g batches)) = true).
 Proof.
   exact (conj dg_oracle_reach_accepts (conj dg_oracle_commit_accepts
-          (conj dg_commit_preserves_acyclic dg_remove_preserves_acyclic))).
+          (conj dg_commit_preserves_acyclic (conj dg_remove_preserves_acyclic dg_oracle_load_accepts)))).
 Qed.
 Print Assumptions C07_oracle_accepts_model.
 
